@@ -40,6 +40,39 @@ def hx(a):
     return [float(x).hex() for x in np.ravel(a)]
 
 
+def checkpoint_legs(c):
+    """"all histories" include those that pass through a checkpoint: the same system under shipped moves and criteria, run, rebuilt with
+    Class.from_dict(sim.to_dict()) (a job split in legs), run on - the rebuilt simulation must still honour the constraint
+    (seeded change C12-11: the checkpoint stored atoms[:], which drops FixCom)."""
+    atoms = Atoms(c["symbols"], positions=np.array(c["positions"], dtype=float), cell=[12.0, 12.0, 12.0], pbc=False)
+    if c.get("masses"):
+        atoms.set_masses(c["masses"])
+    mk = lambda: Harmonic(k=0.8, r0=np.array(c["positions"], dtype=float) + 0.1, pair=0.05)
+    atoms.calc = mk()
+    fixed = c.get("fixed") or []
+    atoms.set_constraint(FixAtoms(indices=fixed) if c["constraint"] == "fixatoms" else FixCom())
+    x0, com0 = atoms.positions.copy(), atoms.get_center_of_mass().copy()
+    if c["driver"] == "canonical":
+        # (hot enough for the shipped criteria to accept most trials: a leg without an accepted trial shows nothing)
+        mc = Canonical(atoms, temperature=max(c["T"], 1.0e5), seed=c["seed"], max_cycles=2, logfile=None,
+                       default_displacement_move=DisplacementMove(np.arange(len(atoms)), Ball(0.3)))
+    else:
+        mc = HamiltonianCanonical(atoms, temperature=max(c["T"], 1.0e5), seed=c["seed"], max_cycles=1, logfile=None)
+    mc.run(2)
+    worst_fixed = worst_com = 0.0
+    accepted = 0
+    for _leg in range(2):
+        mc = type(mc).from_dict(mc.to_dict())
+        mc.atoms.calc = mk()
+        for _ in mc.srun(3):      # (srun: one whole step per iteration)
+            accepted += sum(1 for _nm, v in mc.move_history if v)
+            if fixed and c["constraint"] == "fixatoms":
+                worst_fixed = max(worst_fixed, float(np.max(np.abs(mc.atoms.positions[fixed] - x0[fixed]))))
+            if c["constraint"] == "fixcom":
+                worst_com = max(worst_com, float(np.max(np.abs(mc.atoms.get_center_of_mass() - com0))))
+    return {"accepted": accepted, "worst_fixed": worst_fixed, "worst_com": worst_com, "constraints": [type(k).__name__ for k in mc.atoms.constraints]}
+
+
 def run_case(c):
     n = c["natoms"]
     rng = np.random.default_rng(c["geom_seed"])
@@ -144,7 +177,8 @@ def run_case(c):
                 first_bad = k
         if drv in ("canonical", "hamiltonian"):
             hist.append([[nm, None if v is None else bool(v)] for nm, v in mc.move_history])
-    return {"worst_fixed": worst_fixed, "worst_com": worst_com, "first_bad_step": first_bad, "history": hist[:6], "proposals": proposals,
+    ckpt = checkpoint_legs(c) if drv in ("canonical", "hamiltonian") and c["constraint"] in ("fixatoms", "fixcom") else None
+    return {"ckpt": ckpt, "worst_fixed": worst_fixed, "worst_com": worst_com, "first_bad_step": first_bad, "history": hist[:6], "proposals": proposals,
             "masses": hx(atoms.get_masses()), "scale": float(np.max(np.abs(x0)) + 1.0),
             "outcomes": {"accepted": sum(1 for h in hist for _, v in h if v is True), "rejected": sum(1 for h in hist for _, v in h if v is False),
                          "failed": sum(1 for h in hist for _, v in h if v is None)}}
